@@ -321,6 +321,17 @@ fn run_case_genuine(case: &Case, verbose: bool) -> (Vec<String>, Option<RecordDe
 /// property-level check of a finished definition: every variant WF / C01 / C02
 fn check_definition(def: &RecordDefinition<NativeDatumDetails>, verbose: bool) -> Vec<String> {
     let mut clauses = Vec::new();
+    // C13: rendering, capacity and alignment never panic
+    for (what, r) in [
+        ("to_string", panic::catch_unwind(panic::AssertUnwindSafe(|| { let _ = def.to_string(); }))),
+        ("max_size", panic::catch_unwind(panic::AssertUnwindSafe(|| { let _ = def.max_size(); }))),
+        ("max_type_align", panic::catch_unwind(panic::AssertUnwindSafe(|| { let _ = def.max_type_align(); }))),
+    ] {
+        if let Err(e) = r {
+            let msg = e.downcast_ref::<String>().cloned().or_else(|| e.downcast_ref::<&str>().map(|s| s.to_string())).unwrap_or_default();
+            clauses.push(format!("C13.panic({}: {})", what, msg));
+        }
+    }
     for v in def.variants() {
         let list: Vec<DatumId> = v.data().collect();
         if verbose {
